@@ -280,8 +280,9 @@ def run(ctx):
     if nd:
         ctx.cov["model_divergence_count"] = ctx.cov.get("model_divergence_count", 0) + nd
         print("NOTE C08: %d getctype texts differ from the name-builder model (first: %s)" % (nd, notes[0]))
-    # code -> spec: TLC re-reads the real texts with the ideal reader: all of them (thorough) or a seeded sample
-    vrecs = recs if not quick or len(recs) <= 2500 else rng.sample(recs, 2500)
+    # code -> spec: TLC re-reads the real texts with the ideal reader: a seeded sample (2 500 quick / 40 000 thorough)
+    cap = 2500 if quick else 40000
+    vrecs = recs if len(recs) <= cap else rng.sample(recs, cap)
     verdicts, diags = tlc_validate(ctx, vrecs, "pairs")
     report(ctx, vrecs, verdicts, diags, "pair")
     # ---------------------------------------------------------------- gcc: declared objects
@@ -335,11 +336,11 @@ def replay(ctx, obj):
 
 def selftest(ctx):
     env = pe.Env(ctx.tmp, tag="c08s", api=False)
-    obs = [o for o in one_pair(env, ("int *[3]", None, "(*)(int)", None))]
+    obs = [o for o in one_pair(env, ("int *", None, "(*)(int)", None))]
     for o in obs:
         o["impl"] = "py" if o["mode"] == "inline" else "c"
     v1, _ = tlc_validate(ctx, obs, "self1")
-    obs[0]["text"] = "int *(*[3])(int)"          # the marker one position too far to the left
+    obs[0]["text"] = "int(* *)(int)"             # the text inserted one position too far to the left
     v2, _ = tlc_validate(ctx, obs, "self2")
     return not v1 and ("reparse" in [x[1] for x in v2])
 
